@@ -66,7 +66,7 @@ def main():
         p = ch.split("\n", 1)[0].strip()
         body = ch.split("\n", 1)[1] if "\n" in ch else ""
         viol = [l.strip() for l in body.splitlines() if l.strip().startswith(("rule violated:", "UNDECIDED", "ANCHOR-MISSING"))]
-        if "INTERNAL" in body:
+        if "INTERNAL" in body or "Traceback (most recent call last)" in body:
             print(p, "INTERNAL", body[-600:])
         elif viol:
             print(p, "FIRED", len(viol)); [print("    ", v[:230]) for v in viol[:6]]
